@@ -53,6 +53,33 @@ BUILTINS = {
 with open(os.path.join(os.path.dirname(os.path.abspath(__file__)), "pinned_names.json")) as _f:
     PINNED = {k: frozenset(v) for k, v in json.load(_f).items()}
 
+# Leading parameter names of the external functions the rules reason about (read off the installed libraries'
+# signatures and frozen here; trusted).  A call that names leading parameters by keyword is normalised to the
+# positional spelling, so `box(minx=a, miny=b, ...)` and `box(a, b, ...)` are one term.
+EXT_SIGNATURES = {
+    "shapely.geometry.box": ("minx", "miny", "maxx", "maxy"),
+    "shapely.box": ("xmin", "ymin", "xmax", "ymax"),
+    "shapely.geometry.Polygon": ("shell", "holes"),
+    "shapely.Polygon": ("shell", "holes"),
+    "shapely.geometry.LineString": ("coordinates",),
+    "shapely.LineString": ("coordinates",),
+    "shapely.geometry.MultiPolygon": ("polygons",),
+    "shapely.geometry.MultiPoint": ("points",),
+    "shapely.geometry.MultiLineString": ("lines",),
+    "shapely.buffer": ("geometry", "distance"),
+    "shapely.clip_by_rect": ("geometry", "xmin", "ymin", "xmax", "ymax"),
+    "shapely.transform": ("geometry", "transformation"),
+    "shapely.linestrings": ("coords",),
+    "shapely.points": ("coords",),
+    "shapely.polygons": ("geometries", "holes"),
+    "shapely.point_on_surface": ("geometry",),
+    "xarray.Variable": ("dims", "data", "attrs"),
+    "xarray.DataArray": ("data", "coords", "dims", "name", "attrs"),
+    "uuid.uuid5": ("namespace", "name"),
+    "scipy.signal.resample": ("x", "num", "t", "axis"),
+    "rasterio.features.rasterize": ("shapes", "out_shape", "fill"),
+}
+
 CMP_FLIP = {"gt": "lt", "ge": "le"}
 CMP_NEG = {"lt": "ge", "le": "gt", "eq": "ne", "ne": "eq", "in": "notin", "notin": "in", "is": "isnot", "isnot": "is",
            "gt": "le", "ge": "lt"}
@@ -288,6 +315,7 @@ class Evaluator:
         self._post: List[tuple] = []  # conditions that hold once the current statement completed normally (inlined raises)
         self.inlined: List[str] = []
         self.alloc_loops: Dict[str, Tuple[str, ...]] = {}
+        self.list_defs: Dict[str, tuple] = {}  # local bound to a list display: (loop stack, live) at the binding
 
     # ------------------------------------------------------------------ plumbing
     def fresh(self, prefix):
@@ -413,6 +441,20 @@ class Evaluator:
         return live
 
     def stmt(self, st, live):
+        if isinstance(st, ast.Expr) and isinstance(st.value, ast.Call) and isinstance(st.value.func, ast.Attribute) \
+                and st.value.func.attr in ("append", "extend") and isinstance(st.value.func.value, ast.Name) \
+                and len(st.value.args) == 1 and not st.value.keywords:
+            # `xs = [a, b]` ... `xs.append(c)` on the same path: xs is the display [a, b, c]
+            nm = st.value.func.value.id
+            cur = self.env.get(nm)
+            if cur is not None and cur[0] == "list" and self.list_defs.get(nm) == (tuple(self.loop_stack), live):
+                arg = self.ev(st.value.args[0], live)
+                if st.value.func.attr == "append":
+                    self.env[nm] = ("list", cur[1] + (arg,))
+                    return live
+                if arg[0] in ("list", "tuple"):
+                    self.env[nm] = ("list", cur[1] + arg[1])
+                    return live
         if isinstance(st, ast.Expr):
             if isinstance(st.value, ast.Constant):
                 return live
@@ -422,6 +464,10 @@ class Evaluator:
             val = self.ev(st.value, live)
             if len(st.targets) == 1 and isinstance(st.targets[0], ast.Name):
                 val = self._alloc(st.value, val, st.targets[0].id, st)
+                if val[0] == "list":
+                    self.list_defs[st.targets[0].id] = (tuple(self.loop_stack), live)
+                else:
+                    self.list_defs.pop(st.targets[0].id, None)
             for t in st.targets:
                 self.assign(t, val, live, st)
             return live
@@ -865,6 +911,12 @@ class Evaluator:
         # stable: named keywords sorted, '**' spreads keep their relative order at the end
         named = sorted([kv for kv in kws if kv[0] != "**"], key=lambda kv: kv[0])
         spreads = [kv for kv in kws if kv[0] == "**"]
+        if f[0] == "ext" and f[1] in EXT_SIGNATURES and named and not spreads and not any(a[0] == "star" for a in args):
+            sig = EXT_SIGNATURES[f[1]]
+            kd = dict(named)
+            while len(args) < len(sig) and sig[len(args)] in kd:
+                args.append(kd.pop(sig[len(args)]))
+            named = sorted(kd.items(), key=lambda kv: kv[0])
         t = ("call", f, tuple(args), tuple(named + spreads))
         inl = self._try_inline(f, t, live, n)
         if inl is not None:
@@ -1183,6 +1235,17 @@ class Summaries:
             return None
         c, fn = found
         return self.of_node(c.module, fn, f"{c.qual}.{meth}", c)
+
+
+def callkw(t) -> Dict[str, tuple]:
+    """Arguments of a call term by parameter name: the keywords, plus -- for external functions whose signature is in
+    EXT_SIGNATURES -- the positional arguments under their parameter names."""
+    kw = dict(t[3])
+    if t[1][0] == "ext" and t[1][1] in EXT_SIGNATURES:
+        for nm, a in zip(EXT_SIGNATURES[t[1][1]], t[2]):
+            if a[0] != "star":
+                kw.setdefault(nm, a)
+    return kw
 
 
 def fold_sub(t):
